@@ -296,7 +296,7 @@ func checkC19(run *mon.Run, rng *mon.Rand, thorough bool) {
 	for _, c := range []string{"C19.unparsable_metadata_touches_nothing", "C19.grant_conditions_enforced", "C19.exactly_listed_channels_granted", "C19.challenger_change_hands_over_listed_channels"} {
 		run.Declare(c, 10)
 	}
-	hist := pick(thorough, 80, 600)
+	hist := pick(thorough, 80, 2500)
 	steps := pick(thorough, 150, 400)
 	feat := map[string]int{}
 	for h := 0; h < hist && !run.TooMany(); h++ {
